@@ -30,6 +30,7 @@ class Safe:
     def __init__(self, tr):
         self.tr = tr            # an rs2lean.FnTr for the same function (expression texts and types come from it)
         self.ctx = tr.ctx
+        self.closures = {}      # local closures: name -> (parameter names, body, environment at the definition)
 
     # ---- helpers ---------------------------------------------------------------------------------
     def txt(self, e, env, expect=None):
@@ -379,7 +380,10 @@ class Safe:
         for a in args:
             obs += self.ex(a, env)
         if len(segs) == 1 and name in env and env[name][0] == "fn":
-            return obs               # a local closure: its body was covered where it was defined (over all arguments)
+            # a local closure: the obligations of its body, for the arguments of this call
+            names, body, env_c = self.closures[name]
+            pre = "".join(f"let {n} := {self.txt(a, env, NAT())[0]}; " for n, a in zip(names, args))
+            return obs + self.wrap(pre, self.ex(body, env_c))
         key = None
         if len(segs) >= 2 and segs[-2][0].isupper():
             tyname = segs[-2] if segs[-2] != "Self" else self.tr.fn.impl_of
@@ -423,9 +427,9 @@ class Safe:
                 body, bty = self.tr.tr(init[2], env_c)
                 env2 = dict(env)
                 env2[pat[1]] = ("fn", [NAT()] * len(names), bty)
+                self.closures[pat[1]] = (names, init[2], env_c)
                 rest_obs = self.stmts(rest, tail, env2, expect)
-                return [f"(∀ ({' '.join(names)} : Nat), {o})" for o in body_obs] + \
-                    self.wrap(f"let {lname(pat[1])} := fun {' '.join(names)} => {body};\n", rest_obs)
+                return self.wrap(f"let {lname(pat[1])} := fun {' '.join(names)} => {body};\n", rest_obs)
             init_e = init[1] if init[0] == "try" else init
             obs = self.ex(init_e, env, dty)
             acc = set()
